@@ -227,11 +227,11 @@ Section Hist.
   Lemma gafs_hash (w : world) p a st :
     state_ok w a -> get_actual_file_state teqb hc w p a = Some st -> has_hash w p (fs_t st).
   Proof.
-    intros [_ Hok] H. unfold get_actual_file_state in H.
+    intros Hok H. unfold get_actual_file_state in H.
     destruct (fget w p) as [f|] eqn:Ef; [|discriminate]. injection H as <-. cbn [fs_t].
     exists (f_content f). split; [apply content_at_fget; exact Ef|].
     destruct (shortcut teqb hc f a) eqn:E; [|reflexivity].
-    apply InvProofs.shortcut_mtime in E. apply Hok; [eapply InvProofs.any_file_path; exact Ef | exact E].
+    eapply InvProofs.state_ok_shortcut; [exact Hok | eapply InvProofs.any_file_path; exact Ef | exact E].
   Qed.
 
   Lemma current_tickets_hash b : forall (w : world) ts,
@@ -535,7 +535,7 @@ Section Hist.
     cbv zeta. set (b1 := forget_replaced hc b ress).
     assert (map fst b1 = r_targets r) as Hfst1 by (unfold b1; rewrite forget_replaced_fst; exact Hfst).
     assert (blob_ok w1 b1) as Hb1.
-    { unfold b1. apply InvProofs.forget_replaced_ok; [apply Hinv1|]. exact (blob_steps _ _ _ Hinv Hs1 Hb). }
+    { unfold b1. apply InvProofs.forget_replaced_ok; [exact teqb_spec|]. exact (blob_steps _ _ _ Hinv Hs1 Hb). }
     destruct (needs_rebuild ress) eqn:Enr.
     - (* the command runs *)
       destruct (run_script w1 script0) as [codes w2] eqn:Ers.
